@@ -199,7 +199,7 @@ func runCheck(p *property, tier string, seed int) int {
 		}
 		loadTime += w.LoadTime.Seconds()
 		// native binary built concurrently with the exploration
-		nativeBin := filepath.Join(workDir, fmt.Sprintf("native-%s-%d", p.ID, gi))
+		nativeBin := filepath.Join(workDir, fmt.Sprintf("native-%s-%d-%d", p.ID, gi, os.Getpid()))
 		nbErr := make(chan error, 1)
 		go func() { nbErr <- buildNative(nativeBin, g.Tags, ovJSON) }()
 
